@@ -295,3 +295,16 @@ Example code_same_schedules :
   (let c := run (body_of [[]; []]) false (init [[0]; [1]]) [0; 1; 1; 0; 0] in
    map (fun j => (is_done (hp c j), o_calls (hp c j))) [0; 1] = [(true, 1); (true, 1)]).
 Proof. vm_compute; split; reflexivity. Qed.
+
+(** the statement exported by props/C10.v *)
+Lemma shared_guard_refuted_all :
+  (race_free ex_body false (init ex_progs) ex_sched = true /\
+   quiescent (run ex_body false (init ex_progs) ex_sched) = true) /\
+  (let c := run (body_of [[]; [0]]) true (init [[1]]) (repeat 0 8) in
+   quiescent c = true /\ is_done (hp c 1) = true /\ o_st (hp c 0) = Idle /\ o_calls (hp c 0) = 0) /\
+  (let c := run (body_of [[]; []]) true (init [[0]; [1]]) [0; 1; 1; 0; 0] in
+   quiescent c = true /\ is_done (hp c 0) = true /\ o_st (hp c 1) = Idle /\ o_calls (hp c 1) = 0).
+Proof.
+  split; [split; [exact ex_race_free | exact (proj1 ex_all_once)]|].
+  split; [exact shared_guard_refuted_nested | exact shared_guard_refuted_threads].
+Qed.
